@@ -151,7 +151,9 @@ func dependencyKeysFromBlock(block *hcl.Block, blockSchema blockSchema) schema.D
 				}
 
 				var diags hcl.Diagnostics
-				value, diags = attr.Expr.Value(nil)
+				// (an empty context rather than none, so that a JSON string
+				// is read as the template it is: "a$${b}" means a${b})
+				value, diags = attr.Expr.Value(&hcl.EvalContext{})
 				if len(diags) > 0 && value.IsNull() {
 					// skip attribute if we can't get the value
 					continue
